@@ -8,7 +8,7 @@ from pyvc.prop import Property
 import z3
 from . import common, lib  # noqa
 
-P = Property('C14', 'proof',
+P = Property('C14', 'other',
              'EquationParser.ParseString on its real AST: (contract) on normal return a time variable exists (t = k is supplied when the user gives none), the '
              'section mode only ever moves from endogenous to exogenous, nothing but the parser object is written, and ValueError is raised only for an '
              'unreadable MaxTime / Err_Tolerance; (mechanical data-flow obligation) inside the line loop the raw line is read only to locate the comment, to '
